@@ -178,8 +178,16 @@ func (r *valRunner) roundTrip(vc vcase, rp rep, ifaceCheck bool) ([]byte, bool) 
 			r.rep.violation("bytes returned by an earlier Encode change when the codecs are used again", r.prev.id+"; then "+id, hexOrMark(r.prev.enc)+" was "+hexOrMark(r.prev.encCopy))
 		}
 		if r.prev.dec.IsValid() {
-			if back, err := fromGo(r.prev.dec, r.prev.dt); err != nil || render(back) != r.prev.decText {
-				r.rep.violation("value handed out by an earlier Decode changes when the codecs are used again", r.prev.id+"; then "+id, render(back)+" was "+r.prev.decText)
+			now := "not readable any more"
+			if p := guard(func() {
+				if back, err := fromGo(r.prev.dec, r.prev.dt); err == nil {
+					now = render(back)
+				}
+			}); p != nil {
+				now = "not a well-formed value any more: " + p.words
+			}
+			if now != r.prev.decText {
+				r.rep.violation("value handed out by an earlier Decode changes when the codecs are used again", r.prev.id+"; then "+id, now+" was "+r.prev.decText)
 			}
 		}
 		r.res.Count("earlier-results-rechecked")
@@ -1242,13 +1250,28 @@ func runC04V(res *lp.Result) {
 		}
 		var arrayDests []reflect.Type
 		switch x := dt.(type) {
-		case *datatype.List:
-			if et, ok := wide.build(x.ElementType, nil); ok {
-				arrayDests = []reflect.Type{reflect.ArrayOf(0, et), reflect.ArrayOf(1, et), reflect.ArrayOf(2, et)}
+		case *datatype.List, *datatype.Set:
+			elemT := func() datatype.DataType {
+				if l, ok := x.(*datatype.List); ok {
+					return l.ElementType
+				}
+				return x.(*datatype.Set).ElementType
+			}()
+			var ets []reflect.Type
+			if et, ok := wide.build(elemT, nil); ok {
+				ets = append(ets, et)
+				if et.Kind() == reflect.Ptr {
+					ets = append(ets, et.Elem())
+				}
 			}
-		case *datatype.Set:
-			if et, ok := wide.build(x.ElementType, nil); ok {
-				arrayDests = []reflect.Type{reflect.ArrayOf(0, et), reflect.ArrayOf(1, et), reflect.ArrayOf(2, et)}
+			if isScalar(elemT) {
+				// every Go type the scalar is accepted in, plain and by pointer
+				for _, alt := range scalarAlts(elemT) {
+					ets = append(ets, alt)
+				}
+			}
+			for _, et := range ets {
+				arrayDests = append(arrayDests, reflect.ArrayOf(0, et), reflect.ArrayOf(1, et), reflect.ArrayOf(2, et))
 			}
 		case *datatype.Tuple:
 			arrayDests = []reflect.Type{reflect.ArrayOf(0, tIface), reflect.ArrayOf(1, tIface), reflect.ArrayOf(len(x.FieldTypes)+1, tIface)}
